@@ -152,6 +152,15 @@ func init() {
 				// the peer sent a frame the server cannot decode some time before the connection ends
 				ps = append(ps, Param{Name: fmt.Sprintf("%s-unary-later0-garbage", c), Bound: b,
 					V: map[string]int{"later": 0, "garbage": 1}, S: map[string]string{"cause": c, "mix": "unary"}})
+				// ... or protocol-internal frames about ids that are not (or no longer) current: a
+				// cancel for a call that is not running, a close for an unknown channel, a response
+				// to a request never made
+				ps = append(ps, Param{Name: fmt.Sprintf("%s-unary-later0-stale", c), Bound: b,
+					V: map[string]int{"later": 0, "garbage": 2}, S: map[string]string{"cause": c, "mix": "unary"}})
+				// ... or the first half of a large message and then nothing more (the connection ends
+				// while a message is being received)
+				ps = append(ps, Param{Name: fmt.Sprintf("%s-unary-later0-partial", c), Bound: b,
+					V: map[string]int{"later": 0, "garbage": 3}, S: map[string]string{"cause": c, "mix": "unary"}})
 				// server pings on: the end event lands at a ping tick (a ping write may fail while
 				// handlers are still running)
 				ps = append(ps, Param{Name: fmt.Sprintf("%s-unary-later1-pings", c), Bound: b,
@@ -288,11 +297,22 @@ func connendBody(s *vsched.Sched, p Param) {
 			})
 		}
 	}
-	if p.I("garbage") == 1 {
+	if g := p.I("garbage"); g > 0 {
 		s.Go("ygarbage", func() {
 			s.Env("end-go") // after the handlers have started, before the end event (sorts before "zend")
-			w.Net.Link(0).Inject(vnet.C2S, vnet.TextFrame([]byte(`{not json`), true))
-			w.Net.Link(0).Inject(vnet.C2S, vnet.TextFrame([]byte(`{"jsonrpc":"2.0","id":[1],"method":"T.Hold","params":[9]}`), true))
+			inj := func(payload string) { w.Net.Link(0).Inject(vnet.C2S, vnet.TextFrame([]byte(payload), true)) }
+			switch g {
+			case 1:
+				inj(`{not json`)
+				inj(`{"jsonrpc":"2.0","id":[1],"method":"T.Hold","params":[9]}`)
+			case 2:
+				inj(`{"jsonrpc":"2.0","method":"xrpc.cancel","params":[999]}`)
+				inj(`{"jsonrpc":"2.0","method":"xrpc.ch.close","params":[77]}`)
+				inj(`{"jsonrpc":"2.0","id":4242,"result":1}`)
+			case 3:
+				f := vnet.TextFrame([]byte(`{"jsonrpc":"2.0","id":55,"method":"T.Hold","params":[`+strings.Repeat(" ", 9000)+`5]}`), true)
+				w.Net.Link(0).Inject(vnet.C2S, f[:len(f)/2])
+			}
 		})
 	}
 	s.Go("zend", func() {
